@@ -18,7 +18,7 @@ RULE = ("seeded invocations from every rejection class (no source; a missing sou
 ASSUMPTIONS = ["a --glob pattern that matches nothing is not claimed as a rejection class (the code documents it as a FIXME and the statement speaks of a missing source)"]
 
 CLASSES = ["no-source", "missing-source", "dir-without-r", "multi-to-absent", "multi-to-file", "dir-onto-file-dest", "dir-onto-file-mapped",
-           "same-as-dest", "noclobber-force", "bad-driver", "bad-reflink", "bad-backup", "bad-glob", "bad-blocksize", "glob-multi-to-nondir", "target-directory-nondir", "bad-workers", "dangling-source", "dirlink-without-r"]
+           "same-as-dest", "noclobber-force", "T-with-target-directory", "bad-driver", "bad-reflink", "bad-backup", "bad-glob", "bad-blocksize", "glob-multi-to-nondir", "target-directory-nondir", "bad-workers", "dangling-source", "dirlink-without-r"]
 
 
 def gen_cases(tier, seed):
@@ -107,6 +107,12 @@ def gen_cases(tier, seed):
             dstate = "n/a"
         elif cls == "noclobber-force":
             opts += ["-n", "-f"]
+        elif cls == "T-with-target-directory":
+            # "treat the destination as a directory to copy into" and "do not" at once
+            srcs = ["v0"]
+            opts += ["-T", "--target-directory", "dst"]
+            dest = None
+            dstate = r.choice(["absent", "emptydir", "file"])
         elif cls == "bad-driver":
             opts += ["--driver", r.choice(["fast", "parfil", "", "parbloc\xe2\x84\xaa"])]      # (the last one ends in U+212A KELVIN SIGN, which lower-cases to 'k')
         elif cls == "bad-reflink":
